@@ -48,12 +48,14 @@ def verify(mut, demo, flt):
         else:
             # a script taking the path of the engine binary's worktree as argument
             sh('cargo build --release --offline 2>&1 | tail -2', cwd=wt)
-            rc, out = sh([os.path.abspath(demo), wt], cwd=wt, timeout=900)
+            arg = os.path.join(wt, 'target/release/rust_chess_engine') if (demo.endswith('.py') and os.environ.get('SEED_DEMO_ARG', 'engine') == 'engine') else wt
+            runner = ['python3', os.path.abspath(demo), arg] if demo.endswith('.py') else ['bash', os.path.abspath(demo), arg]
+            rc, out = sh(runner, cwd=wt, timeout=1500)
             res['demo_with_mutation'] = 'rc=%d %s' % (rc, out[-300:])
             res['demo_fails_with_mutation'] = rc != 0
             sh(['git', 'apply', '-R', os.path.abspath(mut)], cwd=wt)
             sh('cargo build --release --offline 2>&1 | tail -2', cwd=wt)
-            rc, out = sh([os.path.abspath(demo), wt], cwd=wt, timeout=900)
+            rc, out = sh(runner, cwd=wt, timeout=1500)
             res['demo_without_mutation'] = 'rc=%d %s' % (rc, out[-300:])
             res['demo_passes_without_mutation'] = rc == 0
     finally:
